@@ -511,3 +511,23 @@ reg(Prop("C08skel", "Layer A of C08: node budget never exceeded; abort checked b
          assumptions=["stores that may run with the abort flag set: only alphaBeta's final insert (null-move path), see Properties/C08_skel.v",
                       "node counter arithmetic is not wrapped at 2^63"],
          design_ref="5/C08"))
+
+reg(Prop("C18", "Exchange evaluation matches the capture-sequence minimax it approximates", "Properties/C18.v",
+         [StreamCfg("c18", 40000, 1500000, judge="judge_c18",
+                    rule="positions from posgen G1/G2/G4 and the battery generator (stacked sliders/pawns on the rays "
+                         "aimed at one square, knights and kings around it; en-passant and promotion variants) x every "
+                         "legal move x thresholds {v-1, v, v+1} around every partial balance of the capture sequence, "
+                         "a +-queen ladder, 0 and (10 %) the int16 extremes; one case = (position, move); non-trivial = "
+                         "at least one recapture is possible; distinct by FEN + move")],
+         trusted=["attack primitives of the model are the geometric definitions (Spec/Geometry.v via Model/Att.v); the "
+                  "engine's magic tables are tied to them by C12 and, here, by the c18 stream running the real tables",
+                  "judge_c18 (Spec/SeeSpec.v all_balances) enumerates every choice among equally valued least attackers"],
+         assumptions=["threshold within -20000..20000 (outside, the int16 Score arithmetic of see.go may wrap); "
+                      "thresholds outside are compared with the model but not judged",
+                      "hypotheses of C18/C18_seq: wf_board (redundant board encodings agree), move_ok (origin occupied, engine's "
+                      "en-passant test = pawn moving diagonally onto an empty square, promotion bits only on a pawn and only "
+                      "Knight..Queen), captured piece not a king; implied by valid position + legal move and re-checked by the "
+                      "judge (wf_boardb, move_okb) on every generated case",
+                      "the king may capture only when the other side has no attacker under the occupancy before the king moves, "
+                      "and its capture ends the sequence (x-rays through the king's own square are not considered, as in the code)"],
+         design_ref="5/C18"))
